@@ -37,6 +37,9 @@ func (s *skel) tr() {
 type bodyFn func(s *skel, inLoop, inSwitch bool)
 
 var loopKinds = []string{"for3", "forcond", "forinf", "range", "rangekey", "rangeself"}
+
+// loops that reuse ONE variable name at every nesting level (only used in the dedicated triples below)
+var sameNameKinds = []string{"for3same", "rangesame"}
 var branchKinds = []string{"if", "ifelse", "ifelseif", "swtag:last", "swtag:first", "swtag:mid", "swtag:none", "sw:last", "sw:first", "sw:mid", "sw:none",
 	// case expressions that the peephole optimizer rewrites (local+local, local+constant): jump distances over a case
 	// must be those of the rewritten code
@@ -55,6 +58,25 @@ func (s *skel) emitConstruct(kind string, sel int, inLoop, inSwitch bool, body f
 		s.indent++
 		s.tr()
 		body(0, true, false)
+		s.tr()
+		s.indent--
+		s.line("}")
+	case "for3same":
+		s.line("for i := 0; i < n; i++ {")
+		s.indent++
+		s.line("fmt.Println(i)")
+		body(0, true, false)
+		s.line("fmt.Println(i)")
+		s.indent--
+		s.line("}")
+	case "rangesame":
+		s.line("for _, v := range []int{1, 2} {")
+		s.indent++
+		s.line("fmt.Println(v)")
+		body(0, true, false)
+		s.line("if v == 2 {")
+		s.line("\tbreak")
+		s.line("}")
 		s.tr()
 		s.indent--
 		s.line("}")
@@ -392,6 +414,14 @@ func genC06(tier string, seed int64) []*Prog {
 			continue
 		}
 		specs = append(specs, skelSpec{kinds: ks, at: []int{rng.Intn(3), rng.Intn(3), rng.Intn(3)}, jmp: j, tight: rng.Intn(3) == 0 && (j == "break" || j == "continue" || j == "return")})
+	}
+	// the same loop variable name redeclared at three nesting levels
+	for _, k1 := range sameNameKinds {
+		for _, k3 := range sameNameKinds {
+			for _, j := range jumps {
+				specs = append(specs, skelSpec{kinds: []string{k1, k1, k3}, at: []int{0, 0, 0}, jmp: j})
+			}
+		}
 	}
 	var progs []*Prog
 	for i, sp := range specs {
